@@ -179,6 +179,15 @@ def origins(fn, start, through_casts=True, through_calls=None, max_steps=4000):
                 rv = df.rv
                 k = rv["k"]
                 extra = _proj_names(df.place) if df.kind == "part" else ()
+                if df.kind == "part" and proj and extra:
+                    # field-sensitive: a write to another field does not define the field being read
+                    if proj[0] != extra[0]:
+                        continue
+                    proj_rest = proj[1:]
+                    if k == "use" and "c" not in rv["op"]:
+                        p = op_place(rv["op"])
+                        work.append((p["l"], _proj_names(p) + proj_rest))
+                        continue
                 if k == "use":
                     op = rv["op"]
                     if "c" in op:
